@@ -375,7 +375,7 @@ func c08Gen(g *Gen, tier string, out *bufio.Writer) {
 	w := &c08Lines{lines: &lines}
 	nenv, perEnv, nrows, nagg, nqry := 36, 70, 4, 500, 64
 	if tier == "thorough" {
-		nenv, perEnv, nrows, nagg, nqry = 260, 110, 6, 6000, 1600
+		nenv, perEnv, nrows, nagg, nqry = 260, 110, 6, 6000, 1000
 	}
 	var names []string
 	for n := range c08Funcs() {
